@@ -109,15 +109,15 @@ def make_tree(mid):
     assert rc == 0, out
     desc, kind, spec = M[mid]
     pre = os.environ.get("MUT_PREPATCH")       # a pending fix (diff against /repo HEAD) every experiment tree starts from
-    if pre and not (isinstance(spec, tuple) and spec[0] == "nopatch"):
-        rc, out = sh("git apply %s" % pre, cwd=t)
-        assert rc == 0, out
     if isinstance(spec, tuple) and spec[0] == "nopatch":
         return t
     if isinstance(spec, tuple) and spec[0] == "revert":
         rc, out = sh("git revert --no-commit %s" % spec[1], cwd=t)
         assert rc == 0, out
-    else:
+    if pre:
+        rc, out = sh("git apply %s" % pre, cwd=t)
+        assert rc == 0, out
+    if not isinstance(spec, tuple):
         for (f, old, new, count) in spec:
             p = os.path.join(t, f)
             s = open(p).read()
